@@ -220,6 +220,13 @@ class Tensor(Funsor, metaclass=TensorMeta):
 
         # Handle diagonal variable substitution
         var_counts = Counter(v for v in subs.values() if isinstance(v, Variable))
+        # Renaming onto an input that is not itself renamed away also selects
+        # a diagonal.
+        var_counts.update(
+            Variable(k, d)
+            for k, d in self.inputs.items()
+            if not isinstance(subs.get(k), (Variable, Slice))
+        )
         subs = OrderedDict(
             (k, self.materialize(v) if var_counts[v] > 1 else v)
             for k, v in subs.items()
